@@ -239,7 +239,8 @@ def collect(
         )
     )
     new._cache.derived_from = table._cache.derived_from | {new._ast}
-    new._cache.partition_by = [preprocess_arg(col, new) for col in table._cache.partition_by]
+    # the UUIDs of the grouping columns are preserved, so the grouping state carries over
+    new._cache.partition_by = list(table._cache.partition_by)
 
     return new
 
